@@ -195,7 +195,7 @@ pub struct Sender {
     max_data_size: usize,
     tx: mpsc::Sender<PortEvt>,
     credits: CreditUser,
-    hangup_recved: Weak<AtomicBool>,
+    hangup_recved: Arc<AtomicBool>,
     hangup_notify: Weak<std::sync::Mutex<Option<Vec<oneshot::Sender<()>>>>>,
     port_allocator: PortAllocator,
     storage: AnyStorage,
@@ -219,7 +219,7 @@ impl Sender {
     #[allow(clippy::too_many_arguments)]
     pub(crate) fn new(
         local_port: u32, remote_port: u32, chunk_size: usize, max_data_size: usize, tx: mpsc::Sender<PortEvt>,
-        credits: CreditUser, hangup_recved: Weak<AtomicBool>,
+        credits: CreditUser, hangup_recved: Arc<AtomicBool>,
         hangup_notify: Weak<std::sync::Mutex<Option<Vec<oneshot::Sender<()>>>>>, port_allocator: PortAllocator,
         storage: AnyStorage,
     ) -> Self {
@@ -441,7 +441,7 @@ impl Sender {
 
     /// True, once the remote endpoint has closed its receiver.
     pub fn is_closed(&self) -> bool {
-        self.hangup_recved.upgrade().map(|hr| hr.load(Ordering::Relaxed)).unwrap_or_default()
+        self.hangup_recved.load(Ordering::Relaxed)
     }
 
     /// Whether the remote endpoint has closed its receiver gracefully (`Some(true)`)
